@@ -123,6 +123,9 @@ def scenarios(tier, seed):
             for inject in (None, "stop", "cancel"):
                 for nev in (0, 1):
                     out.append((kind, fails, 2, inject, 1 if nev else 0, nev, "raises" if nev else "plain", 0.03, 0, "DEBUG"))
+        # two injections (quick: double cancellation only, within the first 150 loop steps)
+        if tier == "quick":
+            out.append((kind, (None, None), 1, "cancel+cancel", 1, 2, "plain", LONG, 0, "WARNING"))
         if tier == "thorough":
             for fails in itertools.product(FAILS, repeat=3):
                 if sum(1 for f in fails if f) > 2:
@@ -142,6 +145,8 @@ def make_run(sc, tier, states=None):
     kind, fails, maxc, inject, njobs, nev, hflavour, hdur, nidle, loglevel = sc
     inject_steps = BOUNDS[tier]["inject_steps"]
     kinds = inject.split("+") if inject else []
+    if len(kinds) > 1 and tier == "quick":
+        inject_steps = 150
 
     def run_one(ch):
         log = []
@@ -353,7 +358,7 @@ def oracle(sc, r):
 
 def run_scenario(sc, tier):
     res = Result()
-    bound = BOUNDS[tier]["deviation_bound"] if (sc[3] and "+" in sc[3]) else 1
+    bound = 2 if (sc[3] and "+" in sc[3]) else 1
     first = True
     for choices, tr, r in explore(make_run(sc, tier, res.states), bound, cost=lambda tag, c: c):
         if sc[3] and "+" in sc[3] and len(r["injected"]) == 1:
